@@ -57,7 +57,8 @@ type c05Mat struct {
 	Pub      any
 	Algs     []string
 	CertOK   *x509.Certificate
-	CertBad  map[string]*x509.Certificate // otherca expired usage
+	CertBad  map[string]*x509.Certificate   // otherca expired usage
+	Chains   map[string][]*x509.Certificate // x5c values of more than one certificate, by kind
 	X509Alg  x509.SignatureAlgorithm
 	HasCerts bool
 }
@@ -69,6 +70,7 @@ type c05Env struct {
 	bodies     sync.Map // path -> []byte
 	modes      sync.Map // path -> RStatus | RGarbage (overrides the body)
 	down       string
+	downL      net.Listener
 	trustStore string
 }
 
@@ -91,7 +93,7 @@ func c05NewEnv(t *testing.T) *c05Env {
 	add := func(kind string, priv, pub any, algs []string, xa x509.SignatureAlgorithm) {
 		env.mats = append(env.mats, &c05Mat{
 			ID: len(env.mats) + 1, Kind: kind, Priv: priv, Pub: pub, Algs: algs,
-			CertBad: map[string]*x509.Certificate{}, X509Alg: xa,
+			CertBad: map[string]*x509.Certificate{}, Chains: map[string][]*x509.Certificate{}, X509Alg: xa,
 		})
 	}
 
@@ -129,6 +131,17 @@ func c05NewEnv(t *testing.T) *c05Env {
 	otherCA, err := testsupport.NewRootCA("C05 Other CA", 24*time.Hour)
 	must(err)
 
+	// an intermediate CA below the trusted root: its leaves validate only with the intermediate in the x5c chain
+	intKey, err := ecdsa.GenerateKey(elliptic.P384(), rand.Reader)
+	must(err)
+	intCert, err := ca.IssueCertificate(
+		testsupport.WithSubject(pkix.Name{CommonName: "C05 Intermediate CA", Organization: []string{"Test"}, Country: []string{"EU"}}),
+		testsupport.WithValidity(time.Now().Add(-time.Hour), 24*time.Hour), testsupport.WithIsCA(),
+		testsupport.WithSubjectPubKey(&intKey.PublicKey, x509.ECDSAWithSHA384))
+	must(err)
+
+	intCA := testsupport.NewCA(intKey, intCert)
+
 	for _, m := range []*c05Mat{env.mats[0], env.mats[2], env.mats[4]} {
 		name := pkix.Name{CommonName: fmt.Sprintf("C05 EE %d", m.ID), Organization: []string{"Test"}, Country: []string{"EU"}}
 		m.HasCerts = true
@@ -152,6 +165,18 @@ func c05NewEnv(t *testing.T) *c05Env {
 			testsupport.WithKeyUsage(x509.KeyUsageKeyEncipherment),
 			testsupport.WithSubjectPubKey(m.Pub, x509.ECDSAWithSHA384))
 		must(err)
+
+		leafInt, err := intCA.IssueCertificate(testsupport.WithSubject(name),
+			testsupport.WithValidity(time.Now().Add(-time.Hour), 24*time.Hour),
+			testsupport.WithKeyUsage(x509.KeyUsageDigitalSignature),
+			testsupport.WithSubjectPubKey(m.Pub, x509.ECDSAWithSHA384))
+		must(err)
+
+		m.Chains["ok-root"] = []*x509.Certificate{m.CertOK, ca.Certificate}                       // valid: trusted root appended
+		m.Chains["ok-int"] = []*x509.Certificate{leafInt, intCert}                                // valid through the intermediate
+		m.Chains["int-missing"] = []*x509.Certificate{leafInt}                                    // invalid: no path to the root
+		m.Chains["otherca-root"] = []*x509.Certificate{m.CertBad["otherca"], otherCA.Certificate} // invalid: the chain brings its own (foreign) root
+		m.Chains["int-foreign"] = []*x509.Certificate{leafInt, otherCA.Certificate}               // invalid: wrong intermediate
 	}
 
 	env.trustStore = filepath.Join(t.TempDir(), "c05-trust-store.pem")
@@ -182,13 +207,31 @@ func c05NewEnv(t *testing.T) *c05Env {
 	l, err := net.Listen("tcp", "127.0.0.1:0")
 	must(err)
 
+	// "down": the listener stays open for the whole run (so nobody else can get the port) and drops every
+	// connection right away; the client sees a failed request
 	env.down = "http://" + l.Addr().String()
-	l.Close()
+	env.downL = l
+
+	go func() {
+		for {
+			c, err := l.Accept()
+			if err != nil {
+				return
+			}
+
+			c.Close()
+		}
+	}()
 
 	return env
 }
 
 func (e *c05Env) mat(id int) *c05Mat { return e.mats[id-1] }
+
+func (e *c05Env) close() {
+	e.srv.Close()
+	e.downL.Close()
+}
 
 // ---- generated inputs ---------------------------------------------------------------
 
@@ -271,13 +314,13 @@ type c05Case struct {
 }
 
 var (
-	c05Issuers = []string{"https://idp.example", "https://idp2.example", "https://other.example"}                                                                       //nolint:gochecknoglobals
-	c05Auds    = []string{"api", "web", "svc", "batch"}                                                                                                                 //nolint:gochecknoglobals
-	c05Scopes  = []string{"read", "write", "foo", "foo.bar", "foo.bar.baz", "foo.*", "*", "foo.", "a.b.c", "a.b", "a", "users.read", "users.*", "a.*.c", "fo", ".", ""} //nolint:gochecknoglobals
-	c05Subs    = []string{"alice", "bob", "carol", "dave"}                                                                                                              //nolint:gochecknoglobals
-	c05Kids    = []string{"k1", "k2", "k3", "k4"}                                                                                                                       //nolint:gochecknoglobals
-	c05Leeways = []int64{0, 0, 0, 5000, 1500, 60000, 1000, 999, -2000, 2999}                                                                                            //nolint:gochecknoglobals
-	c05IDFrom  = []string{"", "", "", "sub", "client_id", "preferred_username"}                                                                                         //nolint:gochecknoglobals
+	c05Issuers = []string{"https://idp.example", "https://idp2.example", "https://other.example"}                                                                                                                    //nolint:gochecknoglobals
+	c05Auds    = []string{"api", "web", "svc", "batch"}                                                                                                                                                              //nolint:gochecknoglobals
+	c05Scopes  = []string{"read", "write", "foo", "foo.bar", "foo.bar.baz", "foo.*", "*", "foo.", "a.b.c", "a.b", "a", "users.read", "users.*", "a.*.c", "fo", "fo*", "*o", "foo.ba*", "rea", "users.rea*", ".", ""} //nolint:gochecknoglobals
+	c05Subs    = []string{"alice", "bob", "carol", "dave"}                                                                                                                                                           //nolint:gochecknoglobals
+	c05Kids    = []string{"k1", "k2", "k3", "k4"}                                                                                                                                                                    //nolint:gochecknoglobals
+	c05Leeways = []int64{0, 0, 0, 5000, 1500, 60000, 1000, 999, -2000, 2999}                                                                                                                                         //nolint:gochecknoglobals
+	c05IDFrom  = []string{"", "", "", "sub", "client_id", "preferred_username", "nested.sub"}                                                                                                                        //nolint:gochecknoglobals
 )
 
 func c05Sub[T any](r *vf.Rand, xs []T, lo, hi int) []T {
@@ -293,7 +336,7 @@ func c05Sub[T any](r *vf.Rand, xs []T, lo, hi int) []T {
 
 func c05GenMatcher(r *vf.Rand) *c05Matcher {
 	m := &c05Matcher{Form: vf.Pick(r, []string{"list", "exact", "hierarchic", "hierarchic", "wildcard", "wildcard"})}
-	m.Values = c05Sub(r, c05Scopes[:len(c05Scopes)-2], 0, 2)
+	m.Values = c05Sub(r, c05Scopes[:len(c05Scopes)-7], 0, 2)
 
 	if r.Chance(5) {
 		m.Values = append(m.Values, vf.Pick(r, c05Scopes))
@@ -445,7 +488,7 @@ func (e *c05Env) genKeys(r *vf.Rand, eff c05Exp) []c05Key {
 		}
 
 		if m.HasCerts && r.Chance(45) {
-			k.Cert = vf.Pick(r, []string{"ok", "ok", "ok", "otherca", "expired", "usage"})
+			k.Cert = vf.Pick(r, []string{"ok", "ok", "ok-root", "ok-int", "otherca", "expired", "usage", "int-missing", "otherca-root", "int-foreign"})
 		}
 
 		keys = append(keys, k)
@@ -735,7 +778,7 @@ func (e *c05Env) gen(r *vf.Rand) c05Case {
 		}
 	}
 
-	if r.Chance(2) {
+	if r.Chance(2) && idf != "nested.sub" {
 		// the subject id member is present but empty
 		fs := t.Fields[:0]
 
@@ -765,9 +808,81 @@ func (e *c05Env) gen(r *vf.Rand) c05Case {
 	// so that the late checks (Claims.Validate, subject creation) are reached
 	if r.Chance(55) {
 		e.repair(r, &c, eff)
+
+		// an otherwise valid token whose issuer / audience / scope only nearly is the configured value
+		if r.Chance(22) {
+			c05NearMiss(r, &c, eff)
+		}
 	}
 
 	return c
+}
+
+// c05Near derives a value that a sloppy comparison (case folding, trimming, prefix match) would take for v
+func c05Near(r *vf.Rand, v string) string {
+	switch r.Intn(8) {
+	case 0:
+		return strings.ToUpper(v)
+	case 1:
+		if v != "" {
+			return strings.ToUpper(v[:1]) + v[1:]
+		}
+
+		return "X"
+	case 2:
+		return v + "/"
+	case 3:
+		return v + "x"
+	case 4:
+		if len(v) > 1 {
+			return v[:len(v)-1]
+		}
+
+		return v + v
+	case 5:
+		return strings.TrimSuffix(v, "/") + "."
+	case 6:
+		if len(v) > 2 {
+			return v[:len(v)-2] + "*" // partial-segment wildcard
+		}
+
+		return v + "*"
+	}
+
+	return "\t" + v
+}
+
+func c05NearMiss(r *vf.Rand, c *c05Case, eff c05Exp) {
+	t := c.Tok
+
+	switch which := r.Intn(3); {
+	case which == 0 && t.Iss != nil:
+		iss := c05Near(r, *t.Iss)
+		t.Iss = &iss
+	case which == 1 && len(eff.Audience) != 0:
+		// every expected audience is replaced by a near miss
+		vals := []string{}
+
+		for _, a := range eff.Audience {
+			vals = append(vals, c05Near(r, a))
+		}
+
+		t.Aud = c05Strs{Form: "arr", Vals: vals}
+	case eff.Scopes != nil && len(eff.Scopes.Values) != 0:
+		// one required scope is only nearly granted
+		miss := eff.Scopes.Values[r.Intn(len(eff.Scopes.Values))]
+		vals := []string{}
+
+		for _, v := range eff.Scopes.Values {
+			if v != miss {
+				vals = append(vals, v)
+			}
+		}
+
+		vals = append(vals, c05Near(r, miss))
+		t.Scp = c05Strs{Form: "absent"}
+		t.Scope = c05Strs{Form: "arr", Vals: vals}
+	}
 }
 
 func (e *c05Env) repair(r *vf.Rand, c *c05Case, eff c05Exp) {
@@ -879,7 +994,7 @@ func (e *c05Env) repair(r *vf.Rand, c *c05Case, eff c05Exp) {
 		}
 	}
 
-	if !has && !keep() {
+	if !has && idf != "nested.sub" && !keep() {
 		t.Fields = append([]c05Field{}, t.Fields...)
 		fs := t.Fields[:0]
 
@@ -1510,7 +1625,11 @@ func (e *c05Env) jwks(keys []c05Key) []byte {
 		case "ok":
 			j.Certificates = []*x509.Certificate{m.CertOK}
 		default:
-			j.Certificates = []*x509.Certificate{m.CertBad[k.Cert]}
+			if chain, ok := m.Chains[k.Cert]; ok {
+				j.Certificates = chain
+			} else {
+				j.Certificates = []*x509.Certificate{m.CertBad[k.Cert]}
+			}
 		}
 
 		set.Keys = append(set.Keys, j)
@@ -1750,6 +1869,9 @@ func c05CoqCred(c c05Case) string {
 		for _, f := range t.Fields {
 			fields = append(fields, vf.CoqPair(vf.CoqStr(f.K), vf.CoqStr(f.V)))
 		}
+
+		// the payload always carries {"nested": {"sub": "decoy-nested", ...}}; a subject id path may point into it
+		fields = append(fields, vf.CoqPair(vf.CoqStr("nested.sub"), vf.CoqStr("decoy-nested")))
 	}
 
 	var claims string
@@ -1767,7 +1889,7 @@ func c05CoqCred(c c05Case) string {
 }
 
 func c05CoqKey(k c05Key) string {
-	cert := map[string]string{"none": "CertNone", "ok": "CertOk"}[k.Cert]
+	cert := map[string]string{"none": "CertNone", "ok": "CertOk", "ok-root": "CertOk", "ok-int": "CertOk"}[k.Cert]
 	if cert == "" {
 		cert = "CertBad"
 	}
@@ -2023,7 +2145,7 @@ func TestVerifC05(t *testing.T) {
 	defer w.Close()
 
 	env := c05NewEnv(t)
-	defer env.srv.Close()
+	defer env.close()
 
 	root := vf.NewRand(vf.Seed())
 	n := vf.N(400)
@@ -2069,6 +2191,8 @@ type c05HStep struct {
 	Rule      *c05Exp           `json:"rule,omitempty"`
 	RuleCache string            `json:"rule_cache,omitempty"` // rule-level cache_ttl: "" (inherit) 0s 1m
 	Env       map[string]c05Pub `json:"env"`                  // what is published where when the request is made (url id -> ...)
+	Who       string            `json:"who,omitempty"`        // which authenticator serves it: "" / strict (validate_jwk true), lax (false)
+	SleepMS   int               `json:"sleep_ms,omitempty"`   // real time passing before the request
 	Tenant    string            `json:"tenant"`               // the token's iss
 	How       string            `json:"how"`                  // own cross previous unpublished
 	Tok       *c05Token         `json:"tok"`
@@ -2145,11 +2269,46 @@ func (e *c05Env) genHist(r *vf.Rand) c05Hist {
 		env[id] = c05Pub{Remote: "RUp", Keys: keys}
 	}
 
+	// a share of the histories has keys with x5c chains, and two authenticators over the same endpoint and
+	// cache that differ in validate_jwk
+	certs := r.Chance(35)
+	two := certs && r.Chance(75)
+
+	if certs {
+		for id, pub := range env {
+			for i := range pub.Keys {
+				if e.mat(pub.Keys[i].Mat).HasCerts && r.Chance(70) {
+					// not "expired": getCacheTTL refuses to cache a key whose certificate is about to expire
+					pub.Keys[i].Cert = vf.Pick(r, []string{"ok", "ok-int", "otherca", "otherca", "usage", "int-missing", "otherca-root"})
+				}
+			}
+
+			env[id] = pub
+		}
+	}
+
+	// with two authenticators: most requests aim at one key whose certificate does not validate
+	focusTenant, focusKid := "", ""
+
+	if two {
+		for _, id := range ids {
+			for _, k := range env[id].Keys {
+				if k.Cert != "none" && k.Cert != "ok" && k.Cert != "ok-int" && focusKid == "" {
+					focusTenant, focusKid = id, k.Kid
+				}
+			}
+		}
+	}
+
 	prev := map[string]int{} // tenant/kid -> material published before the last rotation
 	n := r.Range(2, 4)
 
 	for i := 0; i < n; i++ {
 		st := c05HStep{}
+
+		if two {
+			st.Who = vf.Pick(r, []string{"strict", "lax"})
+		}
 
 		// the world changes between the requests
 		if i > 0 && r.Chance(25) {
@@ -2171,6 +2330,7 @@ func (e *c05Env) genHist(r *vf.Rand) c05Hist {
 				}
 
 				pub.Keys[ki].Mat = next
+				pub.Keys[ki].Cert = "none"
 			case y < 85:
 				pub.Remote = vf.Pick(r, []string{"RStatus", "RGarbage"})
 			default:
@@ -2273,6 +2433,21 @@ func (e *c05Env) genHist(r *vf.Rand) c05Hist {
 			tok.Mutation = vf.Pick(r, []string{"sig-flip", "payload-edit"})
 		}
 
+		if focusKid != "" && r.Chance(65) {
+			// a valid token of the tenant whose key carries the bad certificate
+			if h.Templated {
+				st.Tenant = focusTenant
+				iss := st.Tenant
+				tok.Iss = &iss
+			}
+
+			for _, k := range env[focusTenant].Keys {
+				if k.Kid == focusKid && c05In(e.mat(k.Mat).Algs, k.Alg) {
+					tok.Kid, tok.SignMat, tok.SignAlg, tok.Mutation, st.How = k.Kid, k.Mat, k.Alg, "none", "own"
+				}
+			}
+		}
+
 		st.Tok = tok
 		h.Steps = append(h.Steps, st)
 	}
@@ -2299,6 +2474,25 @@ func c05HistCorpus() []c05Hist {
 		return c05HStep{Env: c05CopyEnv(env), Tenant: tenant, How: how, Tok: t, CacheOn: true}
 	}
 	proto := c05Exp{Issuers: []string{"tenant-a", "tenant-b"}}
+	badCert := map[string]c05Pub{
+		"tenant-a": {Remote: "RUp", Keys: []c05Key{{Kid: "k1", Alg: "ES256", Mat: 3, Cert: "otherca"}}},
+	}
+	whoStep := func(env map[string]c05Pub, who string, t *c05Token) c05HStep {
+		st := step(env, "tenant-a", "own", t)
+		st.Who = who
+
+		return st
+	}
+	aged := func(st c05HStep) c05HStep {
+		st.SleepMS = 2100
+
+		return st
+	}
+	expiring := func(t *c05Token) *c05Token {
+		t.Exp = c05Date{Kind: "rel", V: -10} // = now - default leeway: expired at the time of the request
+
+		return t
+	}
 
 	return []c05Hist{
 		// the attack of seeded/C05-1: A's key is cached, then a token of B signed with A's key under the same kid
@@ -2313,6 +2507,18 @@ func c05HistCorpus() []c05Hist {
 			step(rotated, "tenant-a", "previous", tok("tenant-a", "k1", 3)),
 			step(rotated, "tenant-a", "own", tok("tenant-a", "k1", 4)),
 			step(rotated, "tenant-a", "own", tok("tenant-a", "", 4)),
+		}},
+		// C05-F4: strict and lax authenticator share endpoint and cache; the key's certificate is from a foreign CA
+		{Proto: proto, CacheTTL: "default", Templated: true, Steps: []c05HStep{
+			whoStep(badCert, "strict", tok("tenant-a", "k1", 3)),
+			whoStep(badCert, "lax", tok("tenant-a", "k1", 3)),
+			whoStep(badCert, "strict", tok("tenant-a", "k1", 3)),
+		}},
+		// a long-lived authenticator: two seconds later a token that has just expired must be refused
+		{Proto: proto, CacheTTL: "default", Templated: true, Steps: []c05HStep{
+			step(env, "tenant-a", "own", tok("tenant-a", "k1", 3)),
+			aged(step(env, "tenant-a", "own", expiring(tok("tenant-a", "k1", 3)))),
+			step(env, "tenant-a", "own", tok("tenant-a", "k1", 3)),
 		}},
 		// the same with the cache off
 		{Proto: proto, CacheTTL: "0s", Templated: true, Steps: []c05HStep{
@@ -2357,6 +2563,23 @@ func (e *c05Env) runHist(hid int, h *c05Hist) {
 		return
 	}
 
+	// a second mechanism over the same endpoint (hence the same cache entries) that does not validate JWK certificates
+	laxConf := map[string]any{}
+	for k, v := range conf {
+		laxConf[k] = v
+	}
+
+	laxConf["validate_jwk"] = false
+
+	lax, err := CreatePrototype(nil, fmt.Sprintf("jwth%dlax", hid), AuthenticatorJwt, laxConf)
+	if err != nil {
+		for i := range h.Steps {
+			h.Steps[i].Obs = c05Obs{Setup: "prototype: " + err.Error()}
+		}
+
+		return
+	}
+
 	cch, _ := memory.NewCache(nil, nil, nil)
 
 	var published []string
@@ -2383,7 +2606,14 @@ func (e *c05Env) runHist(hid int, h *c05Hist) {
 			published = append(published, p)
 		}
 
+		if st.SleepMS > 0 {
+			time.Sleep(time.Duration(st.SleepMS) * time.Millisecond)
+		}
+
 		auth := proto
+		if st.Who == "lax" {
+			auth = lax
+		}
 
 		if st.Rule != nil {
 			rc := map[string]any{"assertions": c05ExpConf(*st.Rule)}
@@ -2391,7 +2621,7 @@ func (e *c05Env) runHist(hid int, h *c05Hist) {
 				rc["cache_ttl"] = st.RuleCache
 			}
 
-			if auth, err = proto.WithConfig(rc); err != nil {
+			if auth, err = auth.WithConfig(rc); err != nil {
 				st.Obs = c05Obs{Setup: "with_config: " + err.Error()}
 
 				continue
@@ -2433,7 +2663,7 @@ func c05CoqHist(h c05Hist) string {
 			rule = "(Some " + c05CoqExp(*st.Rule) + ")"
 		}
 
-		cf := vf.CoqApp("cfg", c05CoqExp(h.Proto), rule, `""`, "true", vf.CoqStr(c05If(h.IDFrom == "", "sub", h.IDFrom)), "RUp")
+		cf := vf.CoqApp("cfg", c05CoqExp(h.Proto), rule, `""`, vf.CoqBool(st.Who != "lax"), vf.CoqStr(c05If(h.IDFrom == "", "sub", h.IDFrom)), "RUp")
 
 		ids := make([]string, 0, len(st.Env))
 		for id := range st.Env {
@@ -2484,7 +2714,8 @@ type c05HObs struct {
 func c05HistTags(h c05Hist) ([]string, bool) {
 	tags := []string{fmt.Sprintf("steps:%d", len(h.Steps)), "cache:" + h.CacheTTL, "templated:" + c05If(h.Templated, "yes", "no")}
 	nontrivial := false
-	seen := map[string]bool{} // url/kid for which a key must be cached by now
+	seen := map[string]bool{}      // url/kid for which a key must be cached by now
+	laxFilled := map[string]bool{} // ... and was put there by the authenticator that does not validate certificates
 
 	for i, st := range h.Steps {
 		tags = append(tags, "how:"+st.How, "site:"+st.Obs.Site, "out:"+c05If(st.Obs.Err == "", "accepted", st.Obs.Err))
@@ -2519,6 +2750,24 @@ func c05HistTags(h c05Hist) ([]string, bool) {
 		if st.Rule != nil {
 			tags = append(tags, "rule-level:yes")
 		}
+
+		if st.Who != "" {
+			tags = append(tags, "who:"+st.Who)
+		}
+
+		if st.Who == "strict" && hit && laxFilled[id] {
+			tags = append(tags, "attack:strict-looks-up-what-lax-cached")
+		}
+
+		if st.Who == "lax" && st.CacheOn && st.Tok.Kid != "" && seen[id] && !hit {
+			laxFilled[id] = true
+		}
+
+		for _, k := range st.Env[c05If(h.Templated, st.Tenant, "")].Keys {
+			if k.Cert != "none" {
+				tags = append(tags, "keyset:x5c-"+k.Cert)
+			}
+		}
 	}
 
 	return tags, nontrivial
@@ -2529,7 +2778,7 @@ func TestVerifC05Cache(t *testing.T) {
 	defer w.Close()
 
 	env := c05NewEnv(t)
-	defer env.srv.Close()
+	defer env.close()
 
 	root := vf.NewRand(vf.Seed() + 0x5eed)
 	n := vf.N(300)
